@@ -122,6 +122,8 @@ def check_scenario(cfg: Dict, model_out: Optional[Tuple[str, str]], twice: bool 
     inv = R.inventory(game, cfg)
     for b in R.state_oracle(game):
         fails.append({"kind": "initial-state", "item": b.split()[0], "detail": b})
+    for b in R.options_oracle(game, cfg):
+        fails.append({"kind": "game-options", "item": b.split()[1], "detail": b})
     if twice:
         if ctx is not None:
             for mp in mutation_paths(snap, work):
@@ -561,14 +563,14 @@ def run(ctx: Ctx):
         cases.append((name, rec["cfg"] if rec.get("raw_keys") else _int_keys(rec["cfg"]), rec.get("digest_steps", 0)))
     # 2. generated families
     rng = ctx.rng.fork("scenarios")
-    n_gen = ctx.scale(15, 200)
+    n_gen = ctx.scale(15, 160)
     for k in range(n_gen):
         fam = G.FAMILIES[k % 3]
         cfg = G.gen_scenario(rng, size=1 + (k // 3) % 3, family=fam, shadowing=(k % 4 == 3), node_sets=False)
         cases.append((f"gen:{k}:{fam}", cfg, ctx.scale(10, 20) if k % ctx.scale(7, 5) == 0 else 0))
     # 2b. software matrix: every software type x non-default options x declared operating state of the node
     mrng = ctx.rng.fork("matrix")
-    for k in range(ctx.scale(10, 120)):
+    for k in range(ctx.scale(10, 100)):
         cfg = G.gen_software_matrix(mrng, size=1 + k % 3)
         cases.append((f"matrix:{k}", cfg, ctx.scale(8, 16) if k % ctx.scale(5, 4) == 0 else 0))
     # 3. shipped single-file scenarios
